@@ -34,6 +34,7 @@ enum SampleError {
     WrongSize(usize),
     WrongMagic(i32),
     WrongPulse(i32),
+    NonFiniteOffset(f64),
 }
 
 impl Display for SampleError {
@@ -44,6 +45,7 @@ impl Display for SampleError {
             SampleError::WrongSize(s) => f.write_fmt(format_args!("Invalid size {s}")),
             SampleError::WrongMagic(m) => f.write_fmt(format_args!("Invalid magic {m}")),
             SampleError::WrongPulse(p) => f.write_fmt(format_args!("Invalid pulse {p}")),
+            SampleError::NonFiniteOffset(o) => f.write_fmt(format_args!("Invalid offset {o}")),
         }
     }
 }
@@ -73,6 +75,10 @@ fn deserialize_sample(
 
     if sample.pulse != 0 {
         return Err(SampleError::WrongPulse(sample.pulse));
+    }
+
+    if !sample.offset.is_finite() {
+        return Err(SampleError::NonFiniteOffset(sample.offset));
     }
 
     Ok(sample)
